@@ -151,6 +151,9 @@ def install(lib):
             return v
         if isinstance(v, VBool):
             return VInt(it._num(v))
+        if isinstance(v, VFloat):
+            # int() of a float truncates toward zero
+            return VInt(z3.If(v.t >= 0, z3.ToInt(v.t), -z3.ToInt(-v.t)))
         r = None
         try:
             pv = conc(v)
